@@ -36,8 +36,8 @@ func strconvAccepts(base, bs int) bool {
 	return (base == 0 || (2 <= base && base <= 36)) && 0 <= bs && bs <= 64
 }
 
-// puClass is the coarse input class used in signatures.
-func puClass(s string, base, bs int) string {
+// puBaseClass / puClass are the coarse input classes used in signatures.
+func puBaseClass(base, bs int) string {
 	bc := "base2..36"
 	switch {
 	case base == 0:
@@ -48,6 +48,11 @@ func puClass(s string, base, bs int) string {
 	if bs < 0 || bs > 64 {
 		bc += ",invalid-bitsize"
 	}
+	return bc
+}
+
+func puClass(s string, base, bs int) string {
+	bc := puBaseClass(base, bs)
 	tc := "digits"
 	alnum := true
 	for i := 0; i < len(s); i++ {
@@ -65,8 +70,6 @@ func puClass(s string, base, bs int) string {
 		tc = "sign"
 	case strings.Contains(s, "_"):
 		tc = "underscore"
-	case base == 0 && len(s) >= 2 && s[0] == '0' && strings.ContainsRune("bBoOxX", rune(s[1])):
-		tc = "prefix"
 	}
 	return bc + "," + tc
 }
@@ -118,7 +121,7 @@ func checkPU(r *common.Run, s string, base, bs int) (oracleErr bool) {
 		// largest bitSize-bit value for range) and the property says "agrees on the value ... for
 		// every string, base and bit size" — demanded where strconv accepts base and bit size.
 		if strconvAccepts(base, bs) {
-			r.Violation("ParseUint|wrong-value-with-error|"+puClass(s, base, bs),
+			r.Violation("ParseUint|wrong-value-with-error|"+puBaseClass(base, bs),
 				fmt.Sprintf("strz.ParseUint(%q, %d, %d) = %d, %v; strconv.ParseUint = %d, %v (value returned together with the error differs)", s, base, bs, g1, e1, want, werr), in(), puTest(s, base, bs))
 		} else {
 			info.add("ParseUint: value returned with an invalid base / bit size error differs", fmt.Sprintf("(%q,%d,%d): strz %d, strconv %d", s, base, bs, g1, want))
